@@ -263,6 +263,13 @@ def baseHyp (h : List Nat → Int) (f : MeshFields) : Bool :=
       decide (b.2.map fun r => h (sortNat r)).Nodup
   | none => false
 
+/-- no two points of the data set AS STORED (orphans included) coincide: `Sep` of all coordinate columns
+    under the tolerances of `f`, and pairwise distinct coordinate key vectors.  With `baseHyp` this is
+    the complete, decidable hypothesis of `C02_no_false_fail_continuous`. -/
+def continuousHyp (f : MeshFields) : Bool :=
+  let t := meshTolOf f.mesh
+  pointSep t f.mesh && (pointData (sepA t) f.mesh).dups.isEmpty
+
 /-! ### what the comparison of a relabelled pair must answer -/
 
 def allPassed (o : Outcome) : Bool := o.domainEq && o.statuses.all fun s => s.2.2 == .passed
